@@ -246,8 +246,6 @@ Definition has_any (p : prop) : bool :=
   end.
 Definition accepted_language (p : prop) : bool :=
   in_language p && negb (uses_float_rules p) && negb (uses_informal_key_listrules p).
-Definition iso_nerr (p : prop) : nat :=
-  match visit_object p st0 with Ok (_, s) => nerr s | _ => 0 end.
 
 (* everything that is proved about one property, evaluated once over the whole space *)
 Definition iso_spec (p : prop) : bool :=
@@ -310,6 +308,11 @@ Qed.
 
 Lemma field_imports_cover p : has_any p = false -> field_cover p = true.
 Proof. intros Ha. spec_parts p H. rewrite Ha in Hs. exact Hs. Qed.
+
+(* in the model every recorded error goes through addError, which attaches the node's position: the shape of
+   addError and GetPos is read from the Go source on every run *)
+Lemma errors_positioned_holds : errors_positioned = true.
+Proof. vm_compute. reflexivity. Qed.
 
 (* the documented language at full strength is NOT accepted: float rules, and list rules on an
    informal key, are rejected with a conversion error *)
